@@ -16,6 +16,7 @@ func init() {
 			ruleXZReaderChecks(c, r, "")
 			ruleBlockEnd(c, r, "")
 			ruleAllZeros(c, r, "")
+			ruleCheckEncoding(c, r, "")
 			ruleApplyOps(c, r, "")
 			ruleLzmaFilterCodec(c, r, "")
 			ruleCheckIDs(c, r, "")
